@@ -412,7 +412,10 @@ LEVEL_TEXT = ("Machine-checked proof (Coq 8.16) over an executable model of Chan
               "socketpair against the extracted model, with the property's own oracle evaluated on the implementation.")
 LEVEL_NOTE = ("Trusted: Coq kernel; extraction (ExtrOcamlBasic only) and ocaml/driver.ml for the correspondence only; "
               "prost decode is an oracle; Buffer memory outside position..end not modelled; kernel read returns "
-              "min(space,pending); the Server/CommandHub owner loops are replicated in the driver, not called. "
-              "Partial-write schedules of writable() are quantified in the theorem but exercised on the implementation "
-              "only with an unblocked peer.")
+              "min(space,pending); the worker's owner loop is replicated in the driver and run for real only by the "
+              "black-box ops (bb_worker, bb_oversize, bb_oversize_prefix: a real worker thread with its command channel); "
+              "extract_messages, wants_to_tick and Channel::into are the real functions. Partial-write schedules of "
+              "writable() are quantified in the theorem and exercised with the kernel's own choices (writable_p). "
+              "The failed flag set on an oversize length (fix dc9130b) is checked by the driver's oracle, not modelled. "
+              "Open finding: oversize-worker-loop.")
 TECHNIQUE = "Rocq/Coq proof over an executable Gallina model + differential correspondence (extracted OCaml vs real crate)"
